@@ -33,6 +33,12 @@ struct Opened {
 };
 
 // facc route hex -> rc of init
+SB_OP(fcorr)
+{
+    auto v = unhex(t[3]);
+    Opened o(t[2], v);
+    add(out, (long long)o.rc);
+}
 SB_OP(facc)
 {
     auto v = unhex(t[3]);
